@@ -29,8 +29,9 @@ const (
 
 // OptInEvent describes the specific event on the ticket that triggered the session
 type OptInEvent struct {
-	type_ OptInEventType
-	optIn *flows.OptIn
+	type_    OptInEventType
+	optIn    *flows.OptIn
+	optInRef *assets.OptInReference // kept so that the trigger can be persisted when the asset has gone missing
 }
 
 // OptInTrigger is used when a session was triggered by an optin or optout.
@@ -82,7 +83,7 @@ func (b *Builder) OptIn(optIn *flows.OptIn, eventType OptInEventType) *OptInBuil
 	return &OptInBuilder{
 		t: &OptInTrigger{
 			baseTrigger: newBaseTrigger(TypeOptIn, b.environment, b.flow, b.contact, nil, false, nil),
-			event:       &OptInEvent{type_: eventType, optIn: optIn},
+			event:       &OptInEvent{type_: eventType, optIn: optIn, optInRef: optIn.Reference()},
 		},
 	}
 }
@@ -114,7 +115,8 @@ func readOptInTrigger(sa flows.SessionAssets, data json.RawMessage, missing asse
 
 	t := &OptInTrigger{
 		event: &OptInEvent{
-			type_: e.Event.Type,
+			type_:    e.Event.Type,
+			optInRef: e.Event.OptIn,
 		},
 	}
 
@@ -132,10 +134,16 @@ func readOptInTrigger(sa flows.SessionAssets, data json.RawMessage, missing asse
 
 // MarshalJSON marshals this trigger into JSON
 func (t *OptInTrigger) MarshalJSON() ([]byte, error) {
+	// if the optin asset is missing we still have the reference we were created or read with
+	optInRef := t.event.optInRef
+	if t.event.optIn != nil {
+		optInRef = t.event.optIn.Reference()
+	}
+
 	e := &optInTriggerEnvelope{
 		Event: &optInEventEnvelope{
 			Type:  t.event.type_,
-			OptIn: t.event.optIn.Reference(),
+			OptIn: optInRef,
 		},
 	}
 
